@@ -331,6 +331,11 @@ def contracts(reg):
 
     def ke_returns(c):
         k = c.args["key"]
+        if isinstance(k, VSeq):
+            # symbolic key (callers): the opaque symbol KeyExpansion(key) -- by definition the value proved below
+            from contracts import c20_modes as M
+            n, a = M.arr_of(k)
+            return VExt("RoundKeys", M.KEXP(n, a))
         rks = key_expansion(terms(k.items))
         return newlist(c, [VBytes(vb(rk)) for rk in rks])
 
@@ -357,16 +362,287 @@ def contracts(reg):
         b = c.args["block"]
         return b.length != 16 if isinstance(b, VSeq) else z3.BoolVal(len(b.items) != 16)
 
+    def opaque_or(fn_transparent, syms):
+        def r(c):
+            rk = c.args["round_keys"]
+            if isinstance(rk, VExt):
+                return VBytes([VInt(f(rk.t, *terms(c.args["block"].items))) for f in syms])
+            return fn_transparent(c)
+        return r
+
+    from contracts import c20_modes as _M
     out.append(FnContract(
         target=f"{AES}::_aes_encrypt_block", params=blk_params(),
-        returns=lambda c: VBytes(vb(cipher(terms(c.args["block"].items), rk_terms(c, "round_keys")))),
+        returns=opaque_or(lambda c: VBytes(vb(cipher(terms(c.args["block"].items), rk_terms(c, "round_keys")))), _M.CIPH),
         ensures=[("only-16-byte-blocks", lambda c: z3.Not(bad_block(c)))],
         raises=[Raises("ValueError", when=bad_block)]))
     out.append(FnContract(
         target=f"{AES}::_aes_decrypt_block", params=blk_params(),
-        returns=lambda c: VBytes(vb(inv_cipher(terms(c.args["block"].items), rk_terms(c, "round_keys")))),
+        returns=opaque_or(lambda c: VBytes(vb(inv_cipher(terms(c.args["block"].items), rk_terms(c, "round_keys")))), _M.DECIPH),
         ensures=[("only-16-byte-blocks", lambda c: z3.Not(bad_block(c)))],
         raises=[Raises("ValueError", when=bad_block)]))
+    out.extend(mode_contracts(reg))
+    return out
+
+
+def mode_contracts(reg):
+    """Round-key cache, PKCS#7, ECB/CBC drivers and the CryptAES wrapper (symbolic-length messages)."""
+    from contracts import c20_modes as M
+    from pyvc.contracts import LoopSpec
+    out = []
+    reg.module_consts[(AES, "_ROUND_KEY_CACHE")] = VExt("RKCache")
+    I = z3.IntSort()
+
+    def kexp_of(v):
+        n, a = M.arr_of(v)
+        return M.KEXP(n, a)
+
+    def m_cache_get(ex, st, obj, args, kwargs, node):
+        """cache lookup: ASSUMED class invariant of _ROUND_KEY_CACHE (established by the cache-invariant obligation at
+        every store): a hit for `key` is the key expansion of that very key."""
+        k = args[0]
+        miss = st.fork()
+        try:
+            n, a = M.arr_of(k)
+            hit = VExt("RoundKeys", M.KEXP(n, a))
+            st.assume(z3.Not(bad_len(n)))        # part of the same invariant: only validated keys are ever stored
+        except Exception:  # noqa  -- key is not the bytes object: nothing is known about a hit
+            hit = VExt("RoundKeys")
+        return [(miss, NONE), (st, hit)]
+
+    reg.method_models[("RKCache", "get")] = m_cache_get
+    reg.method_models[("RKCache", "move_to_end")] = lambda ex, st, o, a, k, n: [(st, NONE)]
+    reg.method_models[("RKCache", "popitem")] = lambda ex, st, o, a, k, n: [(st, VUnk("evicted"))]
+
+    def bad_len(n):
+        return z3.And(n != 16, n != 24, n != 32)
+
+    KEY = M.p_symbytes(desc="key: bytes of any length")
+    out.append(FnContract(
+        target=f"{AES}::_get_round_keys", params=[("key", KEY)],
+        returns=lambda c: VExt("RoundKeys", kexp_of(c.args["key"])),
+        ensures=[("only-valid-key-lengths", lambda c: z3.Not(bad_len(c.args["key"].length)))],
+        raises=[Raises("ValueError", when=lambda c: bad_len(c.args["key"].length))],
+        note="result == KeyExpansion(key) whatever the cache holds; a miss stores exactly that value under exactly that key",
+    ))
+
+    # ---- PKCS#7
+    DATA = M.p_symbytes(desc="data: bytes of any length")
+
+    def fresh_bytes(tag):
+        """result of a contract with a relational postcondition: fresh symbolic bytes; the call is logged (ghost) so that
+        wrapper contracts can say *which* call produced a value"""
+        def mk(ex, st, ctx):
+            n = z3.Int(fresh_name(f"{tag}_len"))
+            a = z3.Array(fresh_name(f"{tag}_bytes"), I, M.BV8)
+            st.assume(n >= 0)
+            v = M.symbytes(n, a)
+            st.ghost["calls"] = st.ghost.get("calls", ()) + ((tag, dict(ctx.args), v),)
+            return v
+        return mk
+
+    def pad_post(c):
+        n, a = M.arr_of(c.args["data"])
+        rn, ra = M.arr_of(c.result)
+        p = 16 - n % 16
+        return z3.And(rn == n + p, M.seq_eq(n, ra, n, a),                                   # the data, unchanged, ...
+                      M.seq_eq(p, M.view(ra, n), p, z3.K(I, z3.Int2BV(p, 8))))              # ... followed by p bytes of value p
+
+    out.append(FnContract(
+        target=f"{AES}::_pkcs7_pad", params=[("data", DATA), ("block_size", p_const(16))],
+        ensures=[("data-followed-by-p-bytes-of-value-p", pad_post)],
+        result_maker=fresh_bytes("padded"),
+        note="p = 16 - len(data) % 16 in 1..16",
+    ))
+
+    def last_byte(c):
+        n, a = M.arr_of(c.args["data"])
+        return z3.Select(a, n - 1)
+
+    def valid_padding(c):
+        """p = last byte in 1..16, p <= len(data), and the last p bytes all equal p"""
+        n, a = M.arr_of(c.args["data"])
+        p = z3.BV2Int(last_byte(c))
+        return z3.And(p >= 1, p <= 16, p <= n, M.seq_eq(p, M.view(a, n - p), p, z3.K(I, last_byte(c))))
+
+    def unpad_post(c):
+        n, a = M.arr_of(c.args["data"])
+        rn, ra = M.arr_of(c.result)
+        p = z3.BV2Int(last_byte(c))
+        stripped = z3.And(valid_padding(c), rn == n - p, M.seq_eq(rn, ra, rn, a))
+        return z3.If(n == 0, rn == 0, stripped)
+
+    out.append(FnContract(
+        target=f"{AES}::_pkcs7_unpad", params=[("data", DATA), ("block_size", p_const(16))],
+        ensures=[("removes-exactly-the-padding", unpad_post)],
+        result_maker=fresh_bytes("unpadded"),
+        raises=[Raises("ValueError", when=lambda c: z3.And(c.args["data"].length > 0, z3.Not(valid_padding(c))))],
+        note="empty input is returned unchanged; invalid padding (p not in 1..16, longer than the data, or bytes != p) is a ValueError",
+    ))
+    # ---- block functions seen from the drivers: opaque symbols (see module docstring of c20_modes)
+    def chunks_returns(c):
+        n, a = M.arr_of(c.args["data"])
+        return VSeq(n / 16, lambda j: VBytes([VInt(x) for x in M.blk(a, j)]), "block")
+
+    out.append(FnContract(
+        target=f"{AES}::_chunks", assumed=True, generator=True,
+        params=[("data", DATA), ("size", p_const(16))],
+        requires=lambda c: c.args["data"].length % 16 == 0,
+        returns=chunks_returns,
+        note="ASSUMED (3-line generator over memoryview slices; validated natively for lengths 0..64 in replay): "
+             "block j of a block-aligned buffer is bytes 16j..16j+15",
+    ))
+
+    def spec_ecb(rk, a, ra, nblocks, fns):
+        j = z3.Int("j!ecb")
+        return z3.ForAll([j], M.ecb_at(fns, rk, a, ra, nblocks, j))
+
+    def ecb_contract(name, fns):
+        def inv(lc):
+            n, a = M.arr_of(lc.entry.lookup("data"))
+            on, oa = lc.st.obj(lc["out"].ref).data
+            return z3.And(ops.int_term(lc["offset"]) == 16 * lc.i, on == n)
+
+        def inv_point(lc, j):
+            n, a = M.arr_of(lc.entry.lookup("data"))
+            on, oa = lc.st.obj(lc["out"].ref).data
+            return M.ecb_at(fns, lc["round_keys"].t, a, oa, lc.i, j)
+
+        def post(c):
+            n, a = M.arr_of(c.args["data"])
+            rn, ra = M.arr_of(c.result)
+            return z3.And(rn == n, spec_ecb(kexp_of(c.args["key"]), a, ra, n / 16, fns))
+
+        def bad(c):
+            return z3.Or(c.args["data"].length % 16 != 0, bad_len(c.args["key"].length))
+
+        return FnContract(
+            target=f"{AES}::{name}", params=[("key", KEY), ("data", DATA)],
+            ensures=[("every-block-is-the-block-cipher-of-the-corresponding-input-block", post), ("lengths-valid", lambda c: z3.Not(bad(c)))],
+            raises=[Raises("ValueError", when=bad)],
+            loops={0: LoopSpec(inv=inv, inv_point=inv_point, label="blocks")},
+            result_maker=fresh_bytes("ecb"),
+            note="SP 800-38A ECB: C_j = CIPH_K(P_j) for every block j of a block-aligned message of any length",
+        )
+
+    out.append(ecb_contract("aes_ecb_encrypt", M.CIPH))
+    out.append(ecb_contract("aes_ecb_decrypt", M.DECIPH))
+
+    # ---- CBC (SP 800-38A 6.2): C_0' = IV, C_j = CIPH_K(P_j xor C_{j-1});  P_j = CIPH^-1_K(C_j) xor C_{j-1}
+    IV = M.p_symbytes(desc="iv: bytes of any length")
+
+    def prev_terms(v):
+        if isinstance(v, VBytes):
+            return [M.byte_t(x) for x in v.items]
+        n, a = M.arr_of(v)
+        return [z3.Select(a, t) for t in range(16)]
+
+    def fresh_block(name):
+        return lambda ex, st: VBytes([VInt(z3.BitVec(fresh_name(f"{name}_{t}"), 8)) for t in range(16)])
+
+    def spec_cbc(enc, rk, iva, a, ra, nblocks):
+        j = z3.Int("j!cbc")
+        return z3.ForAll([j], (M.cbc_enc_at if enc else M.cbc_dec_at)(rk, iva, a, ra, nblocks, j))
+
+    def cbc_contract(name, enc):
+        at = M.cbc_enc_at if enc else M.cbc_dec_at
+
+        def parts(lc):
+            n, a = M.arr_of(lc.entry.lookup("data"))
+            _ivn, iva = M.arr_of(lc.entry.lookup("iv"))
+            on, oa = lc.st.obj(lc["out"].ref).data
+            return n, a, iva, on, oa
+
+        def inv(lc):
+            n, a, iva, on, oa = parts(lc)
+            chained = oa if enc else a
+            prev_ok = z3.And([p_ == c_ for p_, c_ in zip(prev_terms(lc["prev"]), M.chain(lc.i, iva, chained))])
+            return z3.And(ops.int_term(lc["offset"]) == 16 * lc.i, on == n, prev_ok)
+
+        def inv_point(lc, j):
+            n, a, iva, on, oa = parts(lc)
+            return at(lc["round_keys"].t, iva, a, oa, lc.i, j)
+
+        def post(c):
+            n, a = M.arr_of(c.args["data"])
+            _ivn, iva = M.arr_of(c.args["iv"])
+            rn, ra = M.arr_of(c.result)
+            return z3.And(rn == n, spec_cbc(enc, kexp_of(c.args["key"]), iva, a, ra, n / 16))
+
+        def bad(c):
+            return z3.Or(c.args["iv"].length != 16, c.args["data"].length % 16 != 0, bad_len(c.args["key"].length))
+
+        return FnContract(
+            target=f"{AES}::{name}", params=[("key", KEY), ("iv", IV), ("data", DATA)],
+            ensures=[("cbc-chaining-equation-for-every-block", post), ("lengths-valid", lambda c: z3.Not(bad(c)))],
+            raises=[Raises("ValueError", when=bad)],
+            loops={0: LoopSpec(inv=inv, inv_point=inv_point, label="blocks", rebind={"prev": fresh_block("prev")})},
+            result_maker=fresh_bytes("cbc_enc" if enc else "cbc_dec"),
+            note="SP 800-38A CBC for block-aligned messages of any length and every IV",
+        )
+
+    out.append(cbc_contract("aes_cbc_encrypt", True))
+    out.append(cbc_contract("aes_cbc_decrypt", False))
+
+    # ---- the CryptAES stream wrapper installed into pypdf
+    reg.ext_models["secrets.token_bytes"] = lambda ex, st, args, kwargs, node: [(st, VBytes([VInt(z3.BitVec(fresh_name(f"iv_{t}"), 8)) for t in range(16)]))]
+    from pyvc.verify import p_obj
+    SELF = p_obj("CryptAES", {"key": KEY})
+    W = f"{AES}::patch_pypdf_fallback_aes.<locals>."
+
+    def the_call(c, tag):
+        cs = [x for x in c.st.ghost.get("calls", ()) if x[0] == tag]
+        return cs[0] if len(cs) == 1 else None
+
+    def same_bytes(x, y):
+        nx, ax = M.arr_of(x)
+        ny, ay = M.arr_of(y)
+        return M.seq_eq(nx, ax, ny, ay)
+
+    def enc_post(c):
+        pad, enc = the_call(c, "padded"), the_call(c, "cbc_enc")
+        if pad is None or enc is None:
+            raise ops.Unsupported("wrapper does not call _pkcs7_pad and aes_cbc_encrypt exactly once")
+        key = c.entry.obj(c.args["self"].ref).data["key"]
+        rn, ra = M.arr_of(c.result)
+        en, ea = M.arr_of(enc[2])
+        ivn, iva = M.arr_of(enc[1]["iv"])
+        return z3.And(same_bytes(pad[1]["data"], c.args["data"]),          # pads the caller's data ...
+                      same_bytes(enc[1]["data"], pad[2]),                  # ... encrypts exactly the padded data ...
+                      same_bytes(enc[1]["key"], key), ivn == 16,           # ... under self.key and a 16-byte IV ...
+                      rn == 16 + en, M.seq_eq(16, ra, 16, iva),            # ... and returns IV || ciphertext
+                      M.seq_eq(en, M.view(ra, 16), en, ea))
+
+    out.append(FnContract(
+        target=W + "_cryptaes_encrypt", params=[("self", SELF), ("data", DATA)],
+        ensures=[("returns-iv-followed-by-cbc-of-the-padded-data", enc_post)],
+        raises=[Raises("ValueError", when=lambda c: bad_len(c.entry.obj(c.args["self"].ref).data["key"].length))],
+        note="the IV is whatever secrets.token_bytes(16) returned (16 bytes; freshness is not expressible)",
+    ))
+
+    def dec_post(c):
+        n, a = M.arr_of(c.args["data"])
+        rn, ra = M.arr_of(c.result)
+        dec, unp = the_call(c, "cbc_dec"), the_call(c, "unpadded")
+        if dec is None or unp is None:
+            # the early return for an empty payload
+            return z3.And(n <= 16, rn == 0)
+        key = c.entry.obj(c.args["self"].ref).data["key"]
+        pn, pa = M.arr_of(dec[1]["data"])
+        ivn, iva = M.arr_of(dec[1]["iv"])
+        aligned = (n - 16) % 16 == 0
+        return z3.And(n > 16, same_bytes(dec[1]["key"], key),
+                      ivn == 16, M.seq_eq(16, iva, 16, a),                                   # IV = first 16 bytes
+                      z3.Implies(aligned, z3.And(pn == n - 16, M.seq_eq(pn, pa, pn, M.view(a, 16)))),   # payload = the rest
+                      same_bytes(unp[1]["data"], dec[2]),                                     # unpads exactly the CBC plaintext
+                      same_bytes(c.result, unp[2]))
+
+    out.append(FnContract(
+        target=W + "_cryptaes_decrypt", params=[("self", SELF), ("data", DATA)],
+        ensures=[("returns-unpadded-cbc-plaintext-of-data-after-the-iv", dec_post)],
+        raises=[Raises("ValueError", label="bad key length, short IV or invalid padding (raised by the callee contracts)")],
+        note="for block-aligned ciphertexts; a ragged payload is padded first (pypdf compatibility) -- not part of the statement",
+    ))
     return out
 
 
@@ -407,6 +683,26 @@ def lemmas():
             d = IMC(ARK(ISB(ISR(d)), ks[r]))
         d = ARK(ISB(ISR(d)), ks[0])
         out.append((f"C20/spec::cipher/lemma#InvCipher-inverts-Cipher.Nr{nr}", facts, d == p0))
+    # ---- mode-level inverse lemmas over the opaque symbols (manual instantiation at a fresh block index j0)
+    from contracts import c20_modes as M
+    I = z3.IntSort()
+    rk = z3.Const("rk!m", M.RK)
+    P, C, R, IVa = (z3.Array(f"{n_}!m", I, M.BV8) for n_ in ("P", "C", "R", "IV"))
+    N, j0, t0 = z3.Int("N!m"), z3.Int("j0!m"), z3.Int("t0!m")
+    xs = [z3.BitVec(f"x{u}!m", 8) for u in range(16)]
+    inv_fact = z3.ForAll(xs + [rk], z3.And([M.DECIPH[t](rk, *[M.CIPH[u](rk, *xs) for u in range(16)]) == xs[t] for t in range(16)]))
+    # (the fact DECIPH(CIPH(x)) = x is lemma InvCipher-inverts-Cipher above, for the transparent definitions)
+    blockeq = z3.And([z3.Select(R, 16 * j0 + t) == z3.Select(P, 16 * j0 + t) for t in range(16)])
+    out.append(("C20/spec::modes/lemma#ecb-decrypt-inverts-ecb-encrypt",
+                [j0 >= 0, j0 < N, inv_fact, M.ecb_at(M.CIPH, rk, P, C, N, j0), M.ecb_at(M.DECIPH, rk, C, R, N, j0)], blockeq))
+    out.append(("C20/spec::modes/lemma#cbc-decrypt-inverts-cbc-encrypt-for-every-iv",
+                [j0 >= 0, j0 < N, inv_fact, M.cbc_enc_at(rk, IVa, P, C, N, j0), M.cbc_dec_at(rk, IVa, C, R, N, j0)], blockeq))
+    n, pn, rn = z3.Int("n!p"), z3.Int("pn!p"), z3.Int("rn!p")
+    D, PD, RD = (z3.Array(f"{n_}!p", I, M.BV8) for n_ in ("D", "PD", "RD"))
+    out.append(("C20/spec::pkcs7/lemma#unpad-inverts-pad",
+                [n >= 0, M.pad_rel(n, D, pn, PD), M.unpad_rel(pn, PD, rn, RD)], z3.And(rn == n, M.seq_eq(n, RD, n, D))))
+    out.append(("C20/spec::pkcs7/lemma#padded-length-is-block-aligned-and-padding-valid",
+                [n >= 0, M.pad_rel(n, D, pn, PD)], z3.And(pn % 16 == 0, pn > n, pn <= n + 16, M.valid_padding(pn, PD))))
     return out
 
 
@@ -455,6 +751,8 @@ def table_checks(repo, tier):
 
 
 EXTRA = [table_checks]
+REPLAY_UNKNOWN = True
+from contracts.c20_modes import C20Executor as EXECUTOR  # noqa: E402
 TRUSTED = ["FIPS-197 spec transcription in contracts/C20.py (guarded by known-answer vectors each run)"]
 ASSUMED_MODELS = []
 ASSUMPTIONS = ["PY-INT with exact bit-vector encoding (widths grow, no overflow)", "bytes objects are immutable sequences of ints in [0,256)"]
